@@ -132,6 +132,8 @@ func c04Exec(in c04Input) (outcome, detail string) {
 		s := core.NewService()
 		s.AddFunction(func(a int, b string, c []int, d map[string]interface{}) int { return a }, "f")
 		s.AddFunction(func(v ...interface{}) int { return len(v) }, "g")
+		s.AddFunction(func(a int, b string, rest ...int) int { return a + len(rest) }, "h")
+		s.AddFunction(func(ctx context.Context, a int, rest ...string) int { return a }, "k")
 		ctx := core.WithContext(context.Background(), core.NewServiceContext(s))
 		resp, err := s.Handle(ctx, b)
 		if err != nil {
@@ -263,6 +265,8 @@ func c04Corpus() [][]byte {
 	b, _, _ := safeMarshal(n, false)
 	out = append(out, b)
 	// RPC shaped
+	out = append(out, []byte("Cuhz"), []byte("Cuha1{1}z"), []byte("Cuha2{1ux}z"), []byte("Cuha4{1ux23}z"), []byte("Cukz"), []byte("Cuka1{1}z"), []byte("Cuka3{1uaub}z"),
+		[]byte("Cufz"), []byte("Cufa1{1}z"), []byte("Cufa6{1s1\"x\"a{}m{}56}z"))
 	out = append(out, []byte("Cs1\"f\"a4{1s1\"x\"a2{12}m1{uk1}}z"), []byte("Cugz"), []byte("Cuga3{1tn}z"), []byte("Rs2\"ok\"z"), []byte("Ra2{1ux}z"), []byte("Es4\"boom\"z"),
 		[]byte("Hm1{s6\"simple\"t}rCufz"), []byte("Hm1{uaub}rR1z"))
 	return out
